@@ -132,7 +132,10 @@ def run(ctx) -> None:
         raise AnchorError("no `operators` list found on the node classes")
     ptov = prog.func(f"{PARSER}:PcodeParser._parse_tag_operator_value")
     ctx.analysed(ptov)
-    if "for op in node.operators" in norm(ptov.node) and "break" in norm(ptov.node):
+    npar = ptov.node.args.args[0].arg if ptov.is_static else ptov.node.args.args[-1].arg
+    scan = [lp for lp in walk_no_nested(ptov.node) if isinstance(lp, ast.For) and norm(lp.iter) == f"{npar}.operators"
+            and any(isinstance(x, ast.Break) for x in ast.walk(lp))]
+    if scan:
         ctx.ok("R18a", "_parse_tag_operator_value takes the first operator of node.operators found in the argument")
     else:
         raise AnchorError("_parse_tag_operator_value: first-match scan over node.operators not recognised")
